@@ -35,7 +35,7 @@ NSHARDS = 16
 
 
 def plan(tier, seed):
-    n = 3000 if tier == "quick" else 150000
+    n = 6000 if tier == "quick" else 450000
     return [{"kind": "program", "start": p * (n // NSHARDS), "count": n // NSHARDS} for p in range(NSHARDS)] + \
         [{"kind": "suite"}]
 
